@@ -694,18 +694,40 @@ func (r *reporter) convertTags(tags map[string]string) []m3thrift.MetricTag {
 	key := cache.TagMapKey(tags)
 
 	mtags, ok := r.tagCache.Get(key)
-	if !ok {
-		mtags = r.resourcePool.getMetricTagSlice()
-		for k, v := range tags {
-			mtags = append(mtags, m3thrift.MetricTag{
-				Name:  r.stringInterner.Intern(k),
-				Value: r.stringInterner.Intern(v),
-			})
-		}
+	if ok && tagsMatch(mtags, tags) {
+		return mtags
+	}
+
+	// n.b. The cache key is a hash of the "key=value" strings, so different
+	//      tag sets can share a key (e.g. {"a": "b=c"} and {"a=b": "c"}): a
+	//      cached entry that is not the requested tag set is left alone and
+	//      the tags are converted without going through the cache.
+	collision := ok
+	mtags = r.resourcePool.getMetricTagSlice()
+	for k, v := range tags {
+		mtags = append(mtags, m3thrift.MetricTag{
+			Name:  r.stringInterner.Intern(k),
+			Value: r.stringInterner.Intern(v),
+		})
+	}
+	if !collision {
 		mtags = r.tagCache.Set(key, mtags)
 	}
 
 	return mtags
+}
+
+// tagsMatch reports whether mtags holds exactly the entries of tags.
+func tagsMatch(mtags []m3thrift.MetricTag, tags map[string]string) bool {
+	if len(mtags) != len(tags) {
+		return false
+	}
+	for _, t := range mtags {
+		if v, ok := tags[t.Name]; !ok || v != t.Value {
+			return false
+		}
+	}
+	return true
 }
 
 func (r *reporter) reportInternalMetrics() {
